@@ -24,6 +24,7 @@ mod gen_typed;
 mod c03;
 mod gen_schema_text;
 mod c09;
+mod c17;
 
 use out::Out;
 
@@ -81,6 +82,7 @@ fn main() {
                 "c19cli" => c19::run_cli(&args, &mut out),
                 "c03" => c03::run(&args, &mut out),
                 "c09" => c09::run(&args, &mut out),
+                "c17" => c17::run(&args, &mut out),
                 s => { eprintln!("unknown stream {s}"); std::process::exit(2); }
             }
             out.write(&args.out);
